@@ -4,6 +4,7 @@
 use libfuzzer_sys::fuzz_target;
 
 fuzz_target!(|data: &[u8]| {
+    gbcheck::engine::fuzz_init();
     if let Err(msg) = gbcheck::checks::c11::fuzz_bus(data) {
         gbcheck::engine::fuzz_violation("C11", "panic-script", serde_json::json!({"kind": "fuzz-bytes", "bytes": gbcheck::engine::hex(data)}), &msg);
     }
